@@ -39,6 +39,11 @@ def check_messages(msgs, data, walk, flt, by_fee=False):
                 return n, "RDH message at 0x%X, which is not the start of an RDH: %s" % (m.offset, first[:100])
             if flt and not R.matches(p.f, flt[0], flt[1]):
                 return n, "RDH message at 0x%X about a packet the filter excludes" % m.offset
+            if "Payload error following RDH" in first:
+                pl = data[p.payload_off:p.payload_off + p.payload_len]
+                run = len(pl) - len(pl.rstrip(b"\xff"))
+                if run <= 15:
+                    return n, "`Payload error` (over-padding) located at 0x%X, but the payload of that packet ends in only %d bytes of 0xFF" % (m.offset, run)
             cur = [l for l in m.text.split("\n") if l.startswith("  current :")]
             prev = [l for l in m.text.split("\n") if l.startswith("  previous:")]
             if cur:
